@@ -28,6 +28,8 @@ CFG = {
         "Observations outside the quantifier, modelled as coded and reported: JsInt64.UnmarshalJSON panics on the one-byte input '\"' "
         "(not a JSON token; never delivered by encoding/json or jsoniter); Unix2Time/UnixNano2Time.Scan silently read 0 from an "
         "unsupported dynamic type and wrap uint64 >= 2^63; UnixStamp/SQLTime2Unix.Scan silently ignore a non-time argument. "
+        "Concurrent classes (conc, par) report only what is a violation under every legal schedule: each observation is 'this call with "
+        "this input returned that', compared with a stateless model; nothing is inferred from timing. "
         "Trusted: Coq kernel + vm_compute; hand model tied by this run's differential check; Go harness/generators; no axioms."
     ),
     "rule": (
@@ -42,7 +44,12 @@ CFG = {
         "struct, ToJS, ToString, the hex formatters, Value - the results kept exactly as the API returned them, 1-4 further values "
         "encoded, and only then every kept result read, compared with the model's text and decoded; class conc: 4-8 goroutines "
         "started together each repeat one encoder call 200 times, first and last result kept, read and decoded after all "
-        "goroutines returned - WaitGroup barrier, no sleeps). A decode case is non-trivial when the token "
+        "goroutines returned - WaitGroup barrier, no sleeps); or the distinct results ONE input produced in the classes par / seq: "
+        "par = 8 goroutines released together by a spin barrier each make 30 000 - 150 000 calls over their own 3-6 inputs (texts "
+        "distinct between goroutines; decoders, UnmarshalTOML and encode-then-decode of Duration, JsInt64, JsUInt64, the three "
+        "time wrappers, JsByte, hex), seq = the same inputs interleaved on one goroutine (A, B, A, ...); the functions are "
+        "specified as pure, so every call must give the model's result for its own input under every schedule, and the case "
+        "(an ordinary CDec / CEnc / CToml with the up to five most frequent distinct results) is decided in Coq. A decode case is non-trivial when the token "
         "reached the wrapper through at least one JSON library path or was decoded to a value; every encode/round-trip, Scan, "
         "Value and string-typed TOML case is non-trivial. distinct = distinct Coq case term (input + observation)."
     ),
